@@ -95,7 +95,7 @@ pub fn draw_job(rng: &mut Rng, c: &Corpus) -> Job {
             // a second output group in any format (a check that only runs
             // while a later group is produced must not leave the first behind)
             // (formats that carry addresses a little more often)
-            let f = if rng.chance(2, 5) { rng.pick(&["intelhex", "intelhex", "mif", "addrspan", "logisim16", "annotated"]).to_string() } else { rng.pick(cmdline::FORMAT_NAMES).to_string() };
+            let f = if rng.chance(2, 5) { rng.pick(&["intelhex", "intelhex", "mif", "addrspan", "logisim16", "annotated"]).to_string() } else if rng.chance(1, 4) { cmdline::draw_good_format(rng) } else { rng.pick(cmdline::FORMAT_NAMES).to_string() };
             spec.groups.push(crate::job::Group { format: Some(f), out: Some("second.out".to_string()), print: false });
             if spec.groups[0].out.is_none() {
                 spec.groups[0].out = Some("first.out".to_string());
